@@ -35,11 +35,24 @@ OBLIGATIONS = [NS + t for t in [
     "learner_roundtrip", "learner_prefix_rejected", "linear_roundtrip", "linear_prefix_rejected",
     "factory_linear_roundtrip", "factory_linear_prefix_rejected", "wlearner_roundtrip", "wlearner_prefix_rejected",
     "gboost_roundtrip", "gboost_prefix_rejected",
+    # the readers as coded (sticky failure state, loops, early returns) implement the codecs
+    "string_loop_reads_n_or_fails", "string_reader_as_coded", "vector_reader_as_coded", "factory_reader_as_coded",
+    "tensor_reader_as_coded", "configurable_reader_as_coded", "sequence_reader_as_coded", "reader_accepts_iff_codec",
+    "tensor_reader_roundtrip", "tensor_reader_prefix_rejected", "factory_configurable_reader_prefix_rejected",
+    "learner_reader_as_coded", "linear_reader_as_coded", "gboost_reader_as_coded", "gboost_reader_prefix_rejected",
+    # version triple
+    "versionOk_iff_lex", "version_newer_major_rejected", "version_newer_minor_rejected", "version_newer_patch_rejected",
+    "version_older_major_accepted", "version_older_minor_accepted", "version_not_newer_patch_accepted",
+    "configurable_version_exact",
+    # what the hash fold detects / does not detect
+    "hashCombine_not_injective_left", "hashCombine_keeps_low_difference", "hash_fold_detects",
+    "tensor_element_corruption_detected", "tensor_bit_flip_detected", "tensor_single_bit_flip_accepted",
+    "tensor_payload_corruption_hash_hypothesis_necessary",
 ]]
 TRUSTED = [
     "Lean 4.33.0 kernel (core library only for this property; no Mathlib import)",
     "axioms: at most propext, Classical.choice, Quot.sound (audited per theorem on every run)",
-    "hand-written model NanoVerif/Model/Codec.lean + Model/Wire.lean of core/stream.h, tensor/stream.h, core/hash.h, parameter.cpp, "
+    "hand-written model NanoVerif/Model/Codec.lean + Model/Wire.lean + Model/WireStream.lean (readers as coded) of core/stream.h, tensor/stream.h, core/hash.h, parameter.cpp, "
     "configurable.cpp, feature.cpp, learner.cpp, linear.cpp, gboost/model.cpp, wlearner/*.cpp; tied to the code by the byte-level "
     "correspondence run (decode + re-encode + field dump, every truncation offset, single-byte corruptions; exact comparison)",
     "NanoVerif/Gen/CodecConsts.lean regenerated on every run from CMakeLists.txt / cmake/version.h.in / include/nano/core/hash.h "
@@ -48,7 +61,15 @@ TRUSTED = [
     "harness/c15.cpp; g++/libstdc++ iostreams/Eigen",
 ]
 ASSUMPTIONS = [
-    "x86-64 little-endian, two's complement, IEEE doubles copied bytewise: scalars on the wire are their memory bytes",
+    "x86-64 little-endian, two's complement, IEEE doubles copied bytewise: scalars on the wire are their memory bytes — checked "
+    "on every run by the `codec scalar` ops (nano::write / nano::read / detail::hash of boundary values of all ten scalar types "
+    "against the model's little-endian encoders and an independent python evaluation) and by static_asserts in the harness "
+    "(tensor_size_t = 8 bytes, tensor3d_dims_t = 24 bytes, IEEE double)",
+    "a read produces a VALUE: the model has no destination argument; that the implementation's result does not depend on what the "
+    "destination held before is checked by the `codec into` ops (every format: read A's stream, and every strict prefix of it, "
+    "into an object that has just read B's stream) and by `dirty=` replays",
+    "std::istream: `read` on a failed stream is a no-op that keeps it failed, a short read sets failbit (Model/WireStream.lean "
+    "`rdRaw`); libstdc++ behaviour, observed through every truncation op",
     "doubles and tensor payloads are opaque bit patterns in the model (no float semantics is needed for serialization)",
     "`reject` = any exception or a failed stream state after the read; the model does not distinguish the two and does not model "
     "how far the stream was consumed on failure",
@@ -62,7 +83,10 @@ ASSUMPTIONS = [
     "memory safety (no out-of-bounds read while parsing truncated/corrupted streams) is observed by the ASan/UBSan flavour of the "
     "thorough tier only (testing)",
 ]
-RULE = ("objects: tensors of the 10 scalar types x rank 1..5 x dims 0..6 (boundary-biased to 0 and 1), parameters of all 7 kinds, "
+RULE = ("[gap-closing round: + strings / string vectors of lengths around 64 and 256 and up to 5000 bytes read by the character "
+        "loop, every datasource id and program::solver_t, `codec into` = dirty destinations for every format, `codec scalar` = "
+        "platform self-test, the 27-point version grid around the library version, hash-collision witnesses in the corpus] "
+        "objects: tensors of the 10 scalar types x rank 1..5 x dims 0..6 (boundary-biased to 0 and 1), parameters of all 7 kinds, "
         "plain configurables, features, every id of the solver/loss/splitter/tuner/lsearch0/lsearchk/linear factories randomly "
         "configured, the 8 weak learners unfitted and fitted on tiny datasets, fitted linear and gboost models; per object ONE op "
         "does: write, re-read, re-write, compare fields/parameters/predictions, and read EVERY strict prefix; tensor corruption ops "
@@ -188,7 +212,7 @@ TNAMES = list(TYPES)
 PARAM_VARIANTS = ["none", "enum", "irange", "frange", "iprange", "fprange", "string"]
 WLEARNERS = ["affine", "stump", "hinge", "dtree", "dense-table", "kbest-table", "ksplit-table", "dstep-table"]
 LINEARS = ["ordinary", "lasso", "ridge", "elastic_net"]
-FACTORIES = {"solver": 35, "loss": 17, "splitter": 2, "tuner": 2, "lsearch0": 4, "lsearchk": 5}   # how many indices to enumerate
+FACTORIES = {"solver": 35, "loss": 17, "splitter": 2, "tuner": 2, "lsearch0": 4, "lsearchk": 5, "datasource": 12}   # how many indices to enumerate
 
 
 _HC = []
@@ -259,6 +283,50 @@ def prod(xs):
     return p
 
 
+_LV = []
+
+
+def lib_version():
+    """the library version, read from CMakeLists.txt (independently of Gen/CodecConsts.lean)"""
+    if not _LV:
+        cm = open(os.path.join(vlib.REPO, "CMakeLists.txt")).read()
+        m = re.search(r"project\s*\(\s*NANO\s+VERSION\s+(\d+)\.(\d+)\.(\d+)", cm)
+        _LV.append(tuple(int(x) for x in m.groups()) if m else (0, 0, 1))
+    return _LV[0]
+
+
+def version_grid():
+    """every combination of older / equal / newer in the three components, near and far from the library version"""
+    M, m, p = lib_version()
+    out = []
+    for far in (1, 1000):
+        for d0 in (-far, 0, far):
+            for d1 in (-far, 0, far):
+                for d2 in (-far, 0, far):
+                    v = (M + d0, m + d1, p + d2)
+                    if v not in out:
+                        out.append(v)
+    return out
+
+
+def version_expect(v):
+    """configurable.cpp:64-68 as the property reads it: a stream written by a NEWER library is refused"""
+    return "accept" if tuple(v) <= lib_version() else "reject"
+
+
+SCALAR_VALUES = {
+    "i8": [0, 1, -1, 127, -128, 0x12, -2], "i16": [0, 1, -1, 32767, -32768, 0x1234, -2],
+    "i32": [0, 1, -1, 2147483647, -2147483648, 0x12345678, -2],
+    "i64": [0, 1, -1, 9223372036854775807, -9223372036854775808, 0x123456789abcdef0, -2],
+    "u8": [0, 1, 255, 128, 0x12], "u16": [0, 1, 65535, 32768, 0x1234], "u32": [0, 1, 4294967295, 2147483648, 0x12345678],
+    "u64": [0, 1, 18446744073709551615, 9223372036854775808, 0x123456789abcdef0],
+    "f32": ["00000000", "80000000", "3f800000", "7fc00000", "ff800000", "12345678", "00000001"],
+    "f64": ["0000000000000000", "8000000000000000", "3ff0000000000000", "7ff8000000000000", "fff0000000000000",
+            "123456789abcdef0", "0000000000000001"],
+}
+STRLENS = [0, 1, 2, 63, 64, 65, 127, 128, 129, 255, 256, 257, 1000]
+
+
 # ---------------------------------------------------------------------------------------------------------
 # generator
 
@@ -313,11 +381,13 @@ def malformed(rng, n):
         ops.append(f"codec read tensor {other} {rank} {hx(good)} expect=reject")
     for _ in range(n):
         ps = _example_params(rng)
-        ops.append(f"codec read configurable {hx(config_stream((0, 0, 1), ps))} expect=accept")
-        ops.append(f"codec read configurable {hx(config_stream((0, 0, 0), ps))} expect=accept")       # older: readable
-        for ver in [(0, 0, 2), (0, 1, 0), (1, 0, 0), (0, 1, -5), (1, -1, -1)]:
-            ops.append(f"codec read configurable {hx(config_stream(ver, ps))} expect=reject")         # newer: refused
-        ops.append(f"codec read configurable {hx(config_stream((-1, 7, 7), ps))} expect=accept")
+        ops.append(f"codec read configurable {hx(config_stream(lib_version(), ps))} expect=accept")
+        # the version triple: newer (in the lexicographic order) is refused, everything else is readable
+        grid = version_grid()
+        for ver in rng.shuffle(grid)[:9]:
+            ops.append(f"codec read configurable {hx(config_stream(ver, ps))} expect={version_expect(ver)}")
+        ver = rng.choice(grid)
+        ops.append(f"codec read factory solver 0 {hx(estr(b'gd') + config_stream(ver, ps))} expect={version_expect(ver)}")
         ops.append(f"codec read configurable {hx(i32(0) + i32(0) + i32(1) + u64(len(ps) + 1) + b''.join(ps))} expect=reject")
         for tag in (6, 7, -2, 100, -2147483648):
             ops.append(f"codec read param {hx(param_stream(b'p', tag, bytes(16)))} expect=reject")
@@ -437,6 +507,68 @@ def gen(rng, tier):
 
     # 6. hand-made malformed streams
     ops += malformed(rng, 40 if thorough else 6)
+
+    # 7. strings on their own (the character loop of core/stream.h): lengths around 64 / 256, long ones
+    for n in STRLENS + ([4096, 5000] if thorough else []):
+        ops.append(f"codec obj string {n} {seed()}")
+    for _ in range(20 if thorough else 5):
+        ops.append(f"codec obj strings {rng.range(0, 6)} {rng.choice([0, 3, 70, 300])} {seed()}")
+    ops.append(f"codec obj program-solver {seed()}")
+
+    # 8. the complete version grid (27 near + far points), on a configurable with parameters
+    ps = _example_params(rng)
+    for ver in version_grid():
+        ops.append(f"codec read configurable {hx(config_stream(ver, ps))} expect={version_expect(ver)}")
+
+    # 9. platform self-test: boundary values of every scalar type
+    for ty, vals in SCALAR_VALUES.items():
+        for v in vals:
+            ops.append(f"codec scalar {ty} {v}")
+        size, kind = TYPES[ty]
+        for _ in range(6 if thorough else 2):
+            if kind == "f":
+                ops.append(f"codec scalar {ty} {rng.below(1 << (8 * size)):0{2 * size}x}")
+            elif kind == "s":
+                ops.append(f"codec scalar {ty} {rng.below(1 << (8 * size)) - (1 << (8 * size - 1))}")
+            else:
+                ops.append(f"codec scalar {ty} {rng.below(1 << (8 * size))}")
+
+    # 10. previously used destinations: A's stream (and every strict prefix) is read into an object that holds B
+    def tspec(ty, rank, maxprod, zero=None):
+        ds = _dims(rng, rank, maxprod)
+        if zero is True:
+            ds[rng.below(rank)] = 0
+        elif zero is False:
+            ds = [max(1, d) for d in ds]
+        return f"tensor {ty} {rank} {' '.join(map(str, ds))} {seed()}"
+    for ty in TNAMES:
+        size, _ = TYPES[ty]
+        for rank in range(1, 6):
+            for za, zb in ([(True, False), (False, True), (False, False)] if thorough or rank <= 2 else [(True, False)]):
+                ops.append(f"codec into {tspec(ty, rank, 400 // size, za)} // {tspec(ty, rank, 400 // size, zb)}")
+    for va in PARAM_VARIANTS:
+        for vb in (PARAM_VARIANTS if thorough else rng.shuffle(list(PARAM_VARIANTS))[:2]):
+            ops.append(f"codec into param {va} {seed()} // param {vb} {seed()}")
+    for _ in range(20 if thorough else 5):
+        ops.append(f"codec into configurable {rng.range(0, 6)} {seed()} // configurable {rng.range(0, 8)} {seed()}")
+        ops.append(f"codec into feature {seed()} // feature {seed()}")
+        ops.append(f"codec into string {rng.choice([0, 1, 5, 70])} {seed()} // string {rng.choice([0, 3, 64, 300])} {seed()}")
+        ops.append(f"codec into strings {rng.range(0, 4)} {rng.choice([0, 3, 70])} {seed()} // strings {rng.range(0, 6)} 80 {seed()}")
+    for which, n in FACTORIES.items():
+        for _ in range(8 if thorough else 2):
+            ops.append(f"codec into factory {which} @{rng.below(n)} {seed()} // factory {which} @{rng.below(n)} {seed()}")
+    for _ in range(24 if thorough else 6):
+        wa, wb = rng.choice(WLEARNERS), rng.choice(WLEARNERS)
+        na, nb = rng.choice([0, rng.range(12, 40)]), rng.range(12, 40)
+        ops.append(f"codec into wlearner {wa} {na} {seed()} // wlearner {wb} {nb} {seed()}")
+    for _ in range(8 if thorough else 2):
+        la, lb = rng.choice(LINEARS), rng.choice(LINEARS)
+        ops.append(f"codec into linear {la} {rng.choice([0, rng.range(12, 30)])} {seed()} // linear {lb} {rng.range(12, 30)} {seed()}")
+    for _ in range(8 if thorough else 2):
+        ka, kb = rng.range(1, 3), rng.range(1, 3)
+        pa, pb = rng.shuffle(WLEARNERS)[:ka], rng.shuffle(WLEARNERS)[:kb]
+        ops.append(f"codec into gboost {rng.choice([0, rng.range(20, 40)])} {rng.range(1, 3)} {seed()} {ka} {' '.join(pa)} // "
+                   f"gboost {rng.range(20, 40)} {rng.range(1, 3)} {seed()} {kb} {' '.join(pb)}")
     return ops
 
 
@@ -464,10 +596,33 @@ def _kind(aug_or_op):
         return "?"
     if t[1] == "corrupt":
         return "tensor"
+    if t[1] == "scalar":
+        return "scalar"
     k = t[2]
     if k == "factory" and len(t) > 3:
         return "factory:" + t[3]
     return k
+
+
+def _is_fold_collision(head, tails):
+    """`codec read tensor <ty> <rank> <S> # … orig=<O>`: True only when O is a stream nano::write can produce (its stored hash
+    is the fold over its payload, recomputed here), S differs from O in payload bytes ONLY, and the fold over the ALTERED
+    payload, recomputed here from the source text of hash.h, EQUALS the stored hash — a true collision of the fold. Anything
+    else that is accepted (hash not compared, hash over part of the bytes, …) is not the known finding."""
+    try:
+        ty, rank = head[3], int(head[4])
+        S = unhx(head[5])
+        orig = [t for ts in tails for t in ts if t.startswith("orig=")]
+        if ty not in TYPES or not orig:
+            return False
+        O = unhx(orig[0][5:])
+        hl = 4 + 4 + 4 * rank + 4 + 8
+        if len(S) != len(O) or len(S) <= hl or S[:hl] != O[:hl] or S[hl:] == O[hl:]:
+            return False
+        stored = int.from_bytes(S[hl - 8:hl], "little")
+        return tensor_hash(ty, O[hl:]) == stored and tensor_hash(ty, S[hl:]) == stored
+    except Exception:
+        return False
 
 
 def oracle(aug, res):
@@ -498,6 +653,10 @@ def oracle(aug, res):
             return "prediction-differs: predictions of the re-read model are not bit-identical"
         if dump_re != dump_orig:
             return f"fields-differ: dumped fields differ after the round trip: {' '.join(dump_orig)[:120]} vs {' '.join(dump_re)[:120]}"
+        if head[2] == "string" and (len(dump_orig) != 2 or S != estr(unhx(dump_orig[1]))):
+            return "string-layout: the stream is not uint32 length + characters"
+        if head[2] == "strings" and S != evec([estr(unhx(t)) for t in dump_orig[2:]]):
+            return "strings-layout: the stream is not uint64 count + (uint32 length + characters)*"
         if head[2] == "tensor":
             # layout of the stream from the property's anchors: version, rank, int32 dims, sizeof, hash(content), content
             spec = tails[1]
@@ -521,6 +680,7 @@ def oracle(aug, res):
         body = r[3:]
         if len(body) != nacc * step:
             return "corrupt: malformed answer"
+        collision = None       # a true collision of the fold is the known finding; it must not mask anything else in the same op
         for i in range(nacc):
             e = body[i * step:(i + 1) * step]
             p, v = int(e[0]), int(e[1])
@@ -529,19 +689,72 @@ def oracle(aug, res):
             bad = bytearray(S); bad[p] = v
             replay = f"replay: codec read {fmt} {hx(bad)} expect=reject"
             if p >= hl:
+                stored = int.from_bytes(S[hl - 8:hl], "little")
+                if tensor_hash(ty, bytes(S[hl:])) == stored and tensor_hash(ty, bytes(bad[hl:])) == stored:
+                    # the fold over the ALTERED payload, recomputed here, equals the stored hash (Props/C15.lean
+                    # tensor_single_bit_flip_accepted): KNOWN_FINDINGS hash-collision-accepted:tensor
+                    collision = collision or (
+                        f"hash-collision-accepted: payload byte {p - hl} changed {S[p]:#04x} -> {v:#04x}, the 64-bit fold over the "
+                        f"altered payload equals the stored hash and the stream is read; {replay} note=hash-collision orig={hx(S)}")
+                    continue
                 return f"payload-corruption-accepted: payload byte {p - hl} changed {S[p]:#04x} -> {v:#04x} and the stream is still read; {replay}"
             # header: only a dimension change that keeps the element count (0) is known to slip through (noted in DESIGN.md §4 C15)
             if not (8 <= p < 8 + 4 * rank) or nbytes != 0 or prod(dims) != 0:
                 return f"header-corruption-accepted: header byte {p} changed to {v:#04x}, read as dims {dims} with {nbytes} payload bytes; {replay}"
-        return None
+        return collision
     if op == "read":
         exp = [t for ts in tails for t in ts if t.startswith("expect=")]
+        if r[0] == "null-object":
+            return ("null-object-accepted: the reader leaves the stream good and the factory object null — neither an exception "
+                    "nor a failed stream state")
         if exp:
             want = exp[0][7:]
             got = "accept" if r[0] == "ok" else "reject"
             if want != got:
                 tag = "malformed-accepted" if want == "reject" else "valid-rejected"
+                if want == "reject" and head[2] == "tensor" and _is_fold_collision(head, tails):
+                    tag = "hash-collision-accepted"
                 return f"{tag}: expected {want}, the implementation answers {res[:80]}"
+        return None
+    if op == "into":
+        nf = _fmt_len(head)
+        fmt = " ".join(head[2:2 + nf])
+        S = unhx(head[2 + nf])
+        dump_orig = tails[0] if tails else []
+        dirty = [t for t in (tails[1] if len(tails) > 1 else []) if t.startswith("dirty=")]
+        replay = f"replay: codec read {fmt} {hx(S)} {dirty[0] if dirty else ''}"
+        if r[0] != "ok":
+            return f"dirty-destination-rejected: a valid stream is refused when the destination was used before; {replay} expect=accept"
+        S2 = unhx(r[1]); eq, nacc = r[2], int(r[3])
+        offs = [int(x) for x in r[4:4 + nacc]]
+        dump_re = r[4 + nacc:]
+        if offs:
+            k = offs[0]
+            return (f"prefix-accepted-dirty: a strict prefix ({k} of {len(S)} bytes; {len(offs)} offsets in all) is read successfully "
+                    f"into a used destination; replay: codec read {fmt} {hx(S[:k])} {dirty[0] if dirty else ''} expect=reject")
+        if S2 != S or eq != "1" or dump_re != dump_orig:
+            return (f"dirty-destination: reading a valid stream into a previously used object does not give the written object "
+                    f"(re-serialization {'differs' if S2 != S else 'equal'}, operator== {eq}, fields "
+                    f"{' '.join(dump_re)[:80]} vs {' '.join(dump_orig)[:80]}); {replay} expect=accept")
+        return None
+    if op == "scalar":
+        ty, tok = head[2], head[3]
+        if ty not in TYPES:
+            return f"unknown scalar type {ty}"
+        size, kind = TYPES[ty]
+        if kind == "f":
+            b = int(tok, 16).to_bytes(size, "little"); hv = int(tok, 16)
+        elif kind == "s":
+            b = int(tok).to_bytes(size, "little", signed=True); hv = int(tok) & M64
+        else:
+            b = int(tok).to_bytes(size, "little"); hv = int(tok)
+        want = ["ok", hx(b), f"{hash_combine(0, hv):016x}", str(size), "1", hx(tensor_stream(ty, [1], b))]
+        if r != want:
+            names = ["", "bytes written by nano::write", "detail::hash of the value", "sizeof", "nano::read gives the value back",
+                     "stream of the one-element tensor"]
+            k = next((i for i in range(min(len(r), len(want))) if r[i] != want[i]), min(len(r), len(want)))
+            return (f"platform-assumption: {ty} {tok}: {names[k] if k < len(names) else 'answer'} is {r[k] if k < len(r) else '-'}, "
+                    f"little-endian / two's complement / sign-extended hashing gives {want[k] if k < len(want) else '-'}")
         return None
     return f"unknown op {op}"
 
@@ -565,7 +778,11 @@ def nontrivial(op):
             return t[3] != "none"
         if t[2] == "configurable":
             return int(t[3]) >= 1
+        if t[2] == "string":
+            return int(t[3]) >= 2
         return t[2] != "feature"
+    if t[1] == "scalar":
+        return False
     if t[1] == "corrupt":
         rank = int(t[3]); return prod(int(x) for x in t[4:4 + rank]) >= 2
     return True
@@ -581,6 +798,10 @@ def distribution(ops):
                 k += "/fitted" if t[4] != "0" else "/unfitted"
         elif t[1] == "corrupt":
             rank = int(t[3]); k = f"corrupt/{t[5 + rank]}/rank{rank}"
+        elif t[1] == "into":
+            k = f"into/{t[2]}" + (f"/{t[3]}" if t[2] in ("factory", "param") else "")
+        elif t[1] == "scalar":
+            k = f"scalar/{t[2]}"
         else:
             k = f"read/{t[2]}/" + (t[-1] if t[-1].startswith("expect=") else "-")
         d[k] = d.get(k, 0) + 1
